@@ -8,6 +8,7 @@
 //!   the same with client routes configured (`<routes>` = `-` or `host.conn.port,…`), `C<entries>`
 //!   merge_client_routes_update (`host.conn.port` upsert / `host.conn.x` removal), `T<tag>` merge_topology_update,
 //!   `U<addr>`/`W<addr>` up/down hint, `K` take.
+//! * `worker <op>;…`  a real `ClusterWorker::work()` behind the channel (see c19_worker.rs): what gets PUBLISHED.
 //! * `stress <n> <mode> <seed>`  producer OS thread merges `0..n` then drops; consumer on a tokio runtime receives
 //!   until `None` (mode 1/2: inside a `select!` that keeps cancelling and restarting `recv`); oracle only.
 //! * `race <reps> <n> <seed>`  `reps` rounds of a tiny stream whose last merge is immediately followed by the drop.
@@ -305,6 +306,8 @@ pub fn generate(rng: &mut Rng, tier: Tier, emit: &mut dyn FnMut(String)) {
             push(random_slot(rng, len));
         }
     }
+    // the real ClusterWorker behind the channel (consumer side: what is published)
+    crate::c19_worker::generate(rng, tier, &mut |c| light.push(c));
     // two OS threads (spread evenly over the case list so that the runner's chunks share them)
     let mut heavy: Vec<String> = Vec::new();
     let (cases, n) = if quick { (24, 30_000u64) } else { (60, 300_000u64) };
@@ -782,6 +785,8 @@ pub fn run(case: &str, ctx: &mut Ctx) -> String {
         ["chan", body] => run_chan(body, ctx),
         ["slot"] => run_slot("", ctx),
         ["slot", body] => run_slot(body, ctx),
+        ["worker"] => crate::c19_worker::run_worker("", ctx),
+        ["worker", body] => crate::c19_worker::run_worker(body, ctx),
         ["stress", n, mode, seed] => match (n.parse(), mode.parse(), seed.parse()) {
             (Ok(n), Ok(mode), Ok(seed)) => run_stress(n, mode, seed, ctx),
             _ => "bad-case".into(),
